@@ -91,3 +91,151 @@ Proof.
         replace (S i0 + j) with (i0 + S j) by lia. exact Hn. }
     apply (G xs 0); auto.
 Qed.
+
+(* ---- every enumerated xpath string resolves to its leaf ------------------------------------------ *)
+From N0 Require Import Xpath.TokenizeProofs.
+
+Definition segs_of (p : path) : list seg :=
+  map (fun s => match s with PKey k => SK k | PIdx i => SI (Z.of_nat i) end) p.
+
+Lemma render_segs_of p : render p = render_segs (segs_of p).
+Proof.
+  induction p as [|[k|i] r IH]; [reflexivity| |]; cbn [render segs_of map]; unfold render_segs in *; cbn [map concat render_seg].
+  - now rewrite IH.
+  - now rewrite IH, dec_of_nat_Z.
+Qed.
+
+(* keys that render unambiguously and address one-to-one *)
+Definition good_key (k : pstr) : Prop := seg_key k /\ plain_key k.
+
+Fixpoint keys_good (t : tree) : Prop :=
+  match t with
+  | Leaf _ => True
+  | Dict _ kvs =>
+    (fix all (l : list (pstr * tree)) := match l with [] => True | (k, v) :: r => good_key k /\ keys_good v /\ all r end) kvs
+  | Lst _ xs => (fix all (l : list tree) := match l with [] => True | v :: r => keys_good v /\ all r end) xs
+  end.
+
+Lemma good_key_ok k : good_key k -> key_ok k.
+Proof.
+  intros [Hs Hp]. split; [|split; [now apply strip_token_key|exact Hp]].
+  destruct Hs as [_ [HF _]]. apply mem_chr_false. intros Hin. rewrite Forall_forall in HF.
+  destruct (HF _ Hin) as [_ [H _]]. congruence.
+Qed.
+
+Lemma keys_good_ok : forall t, keys_good t -> keys_ok t.
+Proof.
+  induction t as [s|c kvs IH|c xs IH] using tree_ind'; intros H; [exact I| |].
+  - cbn in *. induction kvs as [|[k v] r IHr]; [exact I|].
+    inversion IH as [|? ? Hv Hr]; subst. destruct H as [Hk [Hgv Hgr]].
+    split; [now apply good_key_ok|]. split; [now apply Hv|now apply IHr].
+  - cbn in *. induction xs as [|v r IHr]; [exact I|].
+    inversion IH as [|? ? Hv Hr]; subst. destruct H as [Hgv Hgr]. split; [now apply Hv|now apply IHr].
+Qed.
+
+Lemma keys_good_lookup c kvs k v : keys_good (Dict c kvs) -> lookup k kvs = Some v -> good_key k /\ keys_good v.
+Proof.
+  cbn. induction kvs as [|[k' v'] r IH]; cbn; [discriminate|].
+  intros [Hk [Hv Hr]]. destruct (pstr_eqb k k') eqn:E.
+  - intros H. inversion H; subst. apply pstr_eqb_eq in E. subst. auto.
+  - auto.
+Qed.
+
+Lemma keys_good_nth c xs i v : keys_good (Lst c xs) -> nth_error xs i = Some v -> keys_good v.
+Proof.
+  cbn. revert i. induction xs as [|x r IH]; intros [|i]; cbn; try discriminate.
+  - intros [Hx _] H. now inversion H; subst.
+  - intros [_ Hr]. now apply IH.
+Qed.
+
+Lemma canonical_spells : forall n p t v, length p <= n -> keys_good t -> resolve t p = Some v ->
+  spells t p (seg_tokens (segs_of p)) /\ segs_ok (segs_of p).
+Proof.
+  induction n as [|n IH]; intros p t v Hlen Hg Hr.
+  - destruct p; [|cbn in Hlen; lia]. split; constructor.
+  - destruct p as [|[k|i] r]; [split; constructor| |].
+    + cbn in Hr. destruct t as [sc|c kvs|c xs]; try discriminate.
+      destruct (lookup k kvs) as [child|] eqn:El; [|discriminate].
+      destruct (keys_good_lookup _ _ _ _ Hg El) as [[Hsk Hpk] Hgc].
+      destruct r as [|[k'|i'] r'].
+      * cbn. split; [eapply sp_key; [exact El|apply sp_nil]|constructor; [assumption|constructor]].
+      * destruct (IH (PKey k' :: r') child v ltac:(cbn in *; lia) Hgc Hr) as [H1 H2].
+        cbn [segs_of map seg_tokens] in *. split; [eapply sp_key; eauto|constructor; assumption].
+      * cbn in Hr. destruct child as [sc|c' kvs'|c' xs']; try discriminate.
+        destruct (nth_error xs' i') as [child'|] eqn:En; [|discriminate].
+        pose proof (keys_good_nth _ _ _ _ Hgc En) as Hgc'.
+        destruct (IH r' child' v ltac:(cbn in *; lia) Hgc' Hr) as [H1 H2].
+        cbn [segs_of map seg_tokens] in *. split.
+        -- eapply sp_keyidx; eauto. apply spell_fwd.
+        -- constructor; [assumption|]. constructor; [exact I|assumption].
+    + cbn in Hr. destruct t as [sc|c kvs|c xs]; try discriminate.
+      destruct (nth_error xs i) as [child|] eqn:En; [|discriminate].
+      pose proof (keys_good_nth _ _ _ _ Hg En) as Hgc.
+      destruct (IH r child v ltac:(cbn in *; lia) Hgc Hr) as [H1 H2].
+      cbn [segs_of map seg_tokens] in *. split.
+      * eapply sp_idx; eauto. apply spell_fwd.
+      * constructor; [exact I|assumption].
+Qed.
+
+Lemma seg_tokens_nonempty l : l <> [] -> seg_tokens l <> [].
+Proof. destruct l as [|[k|z] r]; [congruence| |]; cbn; [destruct r as [|[k'|z'] r']|]; discriminate. Qed.
+
+Lemma leaves_dict_nonempty c kvs p s : In (p, s) (leaves (Dict c kvs)) -> p <> [].
+Proof.
+  cbn [leaves]. induction kvs as [|[k v] r IH]; intros Hin; [destruct Hin|].
+  apply in_app_or in Hin. destruct Hin as [Hin|Hin]; [|now apply IH].
+  apply in_map_iff in Hin. destruct Hin as [[q s'] [E _]]. inversion E. discriminate.
+Qed.
+
+Theorem enumerated_xpaths_resolve c kvs :
+  let t := Dict c kvs in
+  wf t -> keys_good t ->
+  forall xp s, In (xp, s) (xpath_enum t) ->
+    dict_getitem (fuel_for t xp) t xp = Ok (t, LVal (Leaf s)) /\
+    dict_get_pub (fuel_for t xp) t xp = Ok (t, LVal (Leaf s)) /\
+    dict_first (fuel_for t xp) t xp = Ok (t, LVal (Leaf s)).
+Proof.
+  intros t Hwf Hg xp s Hin. rewrite enum_leaves in Hin. apply in_map_iff in Hin.
+  destruct Hin as [[p s'] [E Hl]]. cbn [fst snd] in E. inversion E; subst. clear E.
+  pose proof (leaves_resolve t Hwf p s Hl) as Hr.
+  pose proof (leaves_dict_nonempty c kvs p s Hl) as Hne.
+  destruct (canonical_spells (length p) p t (Leaf s) (le_n _) Hg Hr) as [Hsp Hok].
+  rewrite render_segs_of.
+  set (x := s_root ++ render_segs (segs_of p)).
+  assert (Ht : tokenize x = seg_tokens (segs_of p)) by (now apply tokenize_rendered).
+  assert (Hc : has_path_char x = true) by reflexivity.
+  assert (Hq : no_qmark x) by exact I.
+  assert (Htne : tokenize x <> []).
+  { rewrite Ht. apply seg_tokens_nonempty. destruct p; [congruence|discriminate]. }
+  destruct (spelled_path_resolves t x p (keys_good_ok t Hg) Hc Hq Htne ltac:(now rewrite Ht)) as [v [Hv [H1 [H2 H3]]]].
+  rewrite Hr in Hv. inversion Hv; subst. auto.
+Qed.
+
+(* non-vacuity of the hypotheses of [enumerated_xpaths_resolve] *)
+Lemma good_key_letter c : (97 <= c)%N -> (c <= 122)%N -> good_key [c].
+Proof.
+  intros H1 H2. unfold good_key, seg_key, plain_key, not_ws_hd. cbn [rev app].
+  assert (Hws : mem_chr c py_ws = false).
+  { unfold py_ws, mem_chr. cbn [existsb].
+    repeat match goal with |- context [N.eqb c ?k] =>
+      let E := fresh in assert (E : N.eqb c k = false) by (apply N.eqb_neq; lia); rewrite E; clear E end.
+    reflexivity. }
+  repeat split; try discriminate; try exact Hws.
+  - constructor; [|constructor]. unfold c_slash, c_lb, c_rb. repeat split; lia.
+  - cbn. destruct (N.eqb c 46) eqn:E; [apply N.eqb_eq in E; lia|reflexivity].
+  - cbn. destruct (N.eqb c 42) eqn:E; [apply N.eqb_eq in E; lia|reflexivity].
+Qed.
+
+Theorem enum_example :
+  wf ex_root /\ keys_good ex_root /\
+  xpath_enum ex_root <> [] /\
+  forall xp s, In (xp, s) (xpath_enum ex_root) ->
+    dict_getitem (fuel_for ex_root xp) ex_root xp = Ok (ex_root, LVal (Leaf s)).
+Proof.
+  assert (Hwf : wf ex_root).
+  { cbn. repeat split; repeat constructor; cbn; intuition discriminate. }
+  assert (Hg : keys_good ex_root).
+  { cbn. repeat split; apply good_key_letter; cbv; congruence. }
+  split; [exact Hwf|]. split; [exact Hg|]. split; [vm_compute; discriminate|].
+  intros xp s Hin. exact (proj1 (enumerated_xpaths_resolve true _ Hwf Hg xp s Hin)).
+Qed.
